@@ -28,7 +28,28 @@ def plan(tier: str, seed: int) -> list[dict]:
     # small scope, exhaustively: short streams of the smallest readouts the syntax allows next to ones with the longest identification
     # line, under EVERY splitting into one, two and three calls
     shards += [{"kind": "allcuts", "k": k, "n": 3 if tier == "quick" else 12} for k in range(4)]
+    # one call that carries hundreds of readouts (a buffered capture, a stalled consumer), ending off a line boundary, then the rest
+    shards.append({"kind": "huge_call", "sizes": [600 * 1024, 1300 * 1024] if tier == "quick" else [600 * 1024, 2 << 20, 9 << 20, 33 << 20]})
     return shards
+
+
+def run_huge_call(shard: dict, ctx) -> None:
+    rng = ctx.rng("c05", "huge")
+    ids = p1_gen.IdSource(rng)
+    for size in shard["sizes"]:
+        templates = [p1_gen.Template(rng, rng.choice((3, 12, 30)), checksum=rng.choice(("correct", None))) for _ in range(4)]
+        sent = []
+        total = 0
+        while total < size:
+            r = templates[rng.randrange(4)].make(ids)
+            sent.append(r)
+            total += len(r)
+        first = int(total * rng.choice((0.94, 0.5, 0.99))) | 1
+        for spec in (("cuts", [first]), ("cuts", [first, first + 7]), ("none",)):
+            compare(b"", sent, spec, ctx)
+            ctx.case(f"huge/{size}/{spec[0]}/{first}", True)
+        ctx.count("streams_fed_in_calls_of_more_than_half_a_mebibyte")
+        ctx.maximum("largest_single_read_call_octets", total)
 
 
 def run_allcuts(shard: dict, ctx) -> None:
@@ -224,6 +245,8 @@ def compare(lead: bytes, sent: list[bytes], spec, ctx) -> None:
 def run(shard: dict, ctx) -> None:
     if shard.get("kind") == "allcuts":
         return run_allcuts(shard, ctx)
+    if shard.get("kind") == "huge_call":
+        return run_huge_call(shard, ctx)
     for i in range(shard["n"]):
         rng = ctx.rng("c05", i)
         ctx.regen = {"shard": shard["index"], "i": i, "seed": ctx.seed}
